@@ -40,7 +40,7 @@ CHECKS = {
              "default arguments x explicit/defaulted suffixes is checked by a bounded run of the real generate_functions "
              "(labelled bounded, not proof) and by a file-level bounded check of the generated C and Fortran files of six "
              "libraries (no wrapper defined twice, no Fortran entity declared twice, compilers accept); they exposed one "
-             "genuine defect (fixed) and two recorded known findings. Also under contract: the numbering step of define_function_suffix (position in the overload set -> suffix). File-level monitor also reads Python method tables and Lua registries.",
+             "genuine defect (fixed) and two recorded known findings. Also under contract: the numbering step of define_function_suffix (position in the overload set -> suffix). File-level monitor also reads Python method tables and Lua registries. Bounded relations on every upstream regression input (m_corpus_rel) run in both tiers.",
         design_ref="6/C08, A.3",
         note="Not covered deductively: define_function_suffix / has_default_args / template and generic expansion (clone "
              "FunctionNodes, mutate Scopes), name templates, dump_generic_interfaces, Python/Lua method tables.",
@@ -59,7 +59,7 @@ CHECKS = {
              "loop over classes/namespaces in an emitter handles an element only under that element's own flag for the "
              "emitter's language; every read of a Python/Lua wrap flag outside the Python/Lua emitters is flag bookkeeping, "
              "the emitter gate, or the one documented struct-constructor site (non-interference table); the file lists are "
-             "per-run objects. Three genuine defects found and fixed. process_return_this keeps the Python and Lua choice of the method (unit); bounded monitor m_wrapsel now in the quick tier (every switched-on declaration present, namespace / struct / class switch-off, return_this).",
+             "per-run objects. Three genuine defects found and fixed. process_return_this keeps the Python and Lua choice of the method (unit); bounded monitor m_wrapsel now in the quick tier (every switched-on declaration present, namespace / struct / class switch-off, return_this). Bounded relations on every upstream regression input (m_corpus_rel) run in both tiers.",
         design_ref="6/C15",
         note="Not covered: byte-identity of C/Fortran files under wrap_python struct-constructor addition; per-function "
              "flags inside wrap_function bodies. Bounded monitors m_wrapsel, m_purity.",
@@ -73,7 +73,7 @@ CHECKS = {
              "calls comment-only procedures, fills lists that only ever receive comment lines, or assigns locals used only "
              "there; a break/continue under such a test is accepted only when the whole loop is documentation-only; "
              "user-supplied doxygen texts reach the output one prefixed line at a time. One genuine defect found "
-             "and fixed. _create_splicer's independence of show_splicer_comments is proved under C12. Comment text must be free of line-break hints (a literal tab / form feed or a rendering asked for them with continuation=True, also through locals). Bounded monitor m_docopts in both tiers (per-declaration options, long callbacks, libraries without functions).",
+             "and fixed. _create_splicer's independence of show_splicer_comments is proved under C12. Comment text must be free of line-break hints (a literal tab / form feed or a rendering asked for them with continuation=True, also through locals). Bounded monitor m_docopts in both tiers (per-declaration options, long callbacks, libraries without functions). Bounded relations on every upstream regression input (m_corpus_rel) run in both tiers.",
         design_ref="6/C16",
         note="Syntactic judgement; assumes comment stripping of the target languages removes exactly what it calls a comment "
              "line. Library-level literalinclude/literalinclude2 excluded by the property. Whole-run relation only monitored.",
@@ -89,7 +89,7 @@ CHECKS = {
              "directory listings, no id()/hash() flowing to output, no set iteration. Ten roots failed on the original tree; "
              "four genuine defects were repaired. A reset that exists but is reached only conditionally or after use is a "
              "failure; implicit reads of the working directory (abspath, relpath without start, ...) count as impure. Thorough "
-             "tier: bounded run-time frame check (in-process sequences of libraries vs fresh processes). Also judged: a write decided by a value read from the same root (memo pattern) is not an oblivious write; a set handed to list/tuple/join/extend; every path main_with_args probes or reads is a command-line value or os.path.join(directory, name). Bounded replay m_purity: in-process run sequences, working-directory and PYTHONHASHSEED independence.",
+             "tier: bounded run-time frame check (in-process sequences of libraries vs fresh processes). Also judged: a write decided by a value read from the same root (memo pattern) is not an oblivious write; a set handed to list/tuple/join/extend; every path main_with_args probes or reads is a command-line value or os.path.join(directory, name). Bounded replay m_purity: in-process run sequences, working-directory and PYTHONHASHSEED independence. Bounded relations on every upstream regression input (m_corpus_rel) run in both tiers.",
         design_ref="6/C07, Appendix C",
         note="Sound under the aliasing assumptions of DESIGN.md section 8 (name-based alias closure; reflective writes only "
              "at visible setattr sites). J3 roots carry the listed assumption about stale keys; debug dumps excluded. "
@@ -107,7 +107,7 @@ CHECKS = {
              "function when a class template is instantiated (scope-chain signature, own-contract recursion); every "
              "module-/class-level mutable root is reset or untouched per run, so create_wrapper after earlier runs equals a "
              "fresh command line (effect judgement). Four genuine defects found and fixed. Whole-run identity is monitored "
-             "(bounded, both tiers: two-run relations m_equiv; m_options in the thorough tier). Further units: per-argument attrs merge (keyed by the argument's own name), create_wrapper passes its parameters through unchanged; m_equiv also relates a customisation on every instantiation to the same one on the class template, attrs vs inline attributes with fortran_generic, constructors inside blocks. Six genuine defects found and fixed in all.",
+             "(bounded, both tiers: two-run relations m_equiv; m_options in the thorough tier). Further units: per-argument attrs merge (keyed by the argument's own name), create_wrapper passes its parameters through unchanged; m_equiv also relates a customisation on every instantiation to the same one on the class template, attrs vs inline attributes with fortran_generic, constructors inside blocks. Six genuine defects found and fixed in all. Bounded relations on every upstream regression input (m_corpus_rel) run in both tiers.",
         design_ref="6/C14",
         note="Assumed contracts: util.Scope.clone/reparent/get_parent, FunctionNode.clone. Not covered: util.Scope lookup "
              "itself, per-argument attrs merge, ClassNode.clone outside the loop body, identity of whole runs (bounded "
@@ -123,7 +123,7 @@ CHECKS = {
              "starting with a sign directly after an operator); the emission loops Wrapc.wrap_enum (an initialiser may be left "
              "out only where the source has none) and Wrapf.wrap_enum (one parameter per member with its own value); "
              "PrintNodeIdentifier.visit_Constant (octal literal -> decimal for Fortran). Bounded (labelled): g++ evaluates the "
-             "original enumeration and the generated header, gfortran the module. Three genuine defects found and fixed.",
+             "original enumeration and the generated header, gfortran the module. Three genuine defects found and fixed. Printer state: no module- or class-level mutable root of todict survives between calls (effect judgement).",
         design_ref="6/C11, A.6",
         note="Relative to the oracles A1/A1o/A2/A3 (decimal vs octal literals, '+k' suffix, identifier renaming) written from "
              "the standards; ExprParser.expression precedence only through the bounded compiler oracle; wrapp/Lua constants "
@@ -178,7 +178,7 @@ CHECKS = {
              "copy/truncate/blank-pad/NUL-terminate/trim behaviour, no byte written outside the destination, no read outside "
              "the source, int arithmetic in range. Plus call-site contracts over the statement tables (which buffer, which "
              "capacity, which trimmed length each row passes; a row that returns text into a fixed-length variable defines "
-             "all of it), decided exhaustively. Bounded: upstream's compiled string tests on freshly generated wrappers.",
+             "all of it), decided exhaustively. Bounded: upstream's compiled string tests on freshly generated wrappers. T1 also requires the copied source length to be taken after the call; the copy_string helper is proved under C10 as well.",
         design_ref="6/C10, A.9",
         note="Trusted: mini-C front end, libc contracts (memcpy/memset/strlen/malloc), LP64, malloc succeeds. Not covered: "
              "Fortran intrinsics trim/len/len_trim and std::string(ptr,n) semantics, the Fortran-side slice, ShroudStrToArray/copy_string.",
@@ -192,7 +192,7 @@ CHECKS = {
              "emitted as case label. Mini-C proofs on the helper texts the real module builds (c and c++): ShroudStrAlloc/"
              "Free, ShroudStrArrayAlloc/Free free exactly what they allocate; ShroudCopyStringAndFree and ShroudCopyArray "
              "release the capsule exactly once on every path, write only inside the destination, never pass NULL to "
-             "strncpy/memcpy. Table invariant: temporaries allocated by a row are released by it. Two genuine defects fixed.",
+             "strncpy/memcpy. Table invariant: temporaries allocated by a row are released by it. Two genuine defects fixed. Table invariant T4: copy-helper call sites pass the destination's own capacity.",
         design_ref="6/C06, A.7, 12",
         note="Trusted: pyvc, mini-C front end, z3/cvc5, wformat contracts, typemap-cache precondition, contract of the "
              "generated memory destructor as seen by the copy helpers. copy_array computes its byte count in int: proved "
@@ -226,7 +226,7 @@ CHECKS = {
              "their key, and the emission "
              "identity of a user line through write_lines/write_continue, discharged by z3/cvc5 for all inputs. The "
              "unrestricted emission identity is a recorded known finding (interior TAB / trailing '+'); it is proved under "
-             "the finding's carve-out. Bounded m_splicer_e2e also covers splicer_code, mixed and colliding sources and declaration-level splicers; m_splicer_emit covers empty user bodies and force. One more genuine defect fixed (splicer_code dropped blocks read from files).",
+             "the finding's carve-out. Bounded m_splicer_e2e also covers splicer_code, mixed and colliding sources and declaration-level splicers; m_splicer_emit covers empty user bodies and force. One more genuine defect fixed (splicer_code dropped blocks read from files). Bounded relations on every upstream regression input (m_corpus_rel) run in both tiers.",
         design_ref="6/C12, A.4, A.5",
         note="Trusted: pyvc, z3/cvc5, nested-dict store as class Tree with ghost paths, split()/rstrip() vocabulary. Bounded "
              "(labelled): reader on block orders; end-to-end round trip of one unique line per block of every generated file. "
@@ -238,7 +238,7 @@ CHECKS = {
         text="Deductive: verification conditions generated from the real source text of util.WrapperMixin.write_continue "
              "and write_lines (loop invariants, ghost text emitted so far, per-part contribution spec) and discharged by "
              "z3/cvc5 for all lines, line lengths, indentations and continuation markers, no bound. Thorough tier adds a "
-             "bounded run-time contract on the real functions (labelled bounded). Wiring items: each emitter binds linelen / cont to the option and marker of its own language; bounded driver run with F_line_length != C_line_length (m_linelen_e2e).",
+             "bounded run-time contract on the real functions (labelled bounded). Wiring items: each emitter binds linelen / cont to the option and marker of its own language; bounded driver run with F_line_length != C_line_length (m_linelen_e2e). Bounded relations on every upstream regression input (m_corpus_rel) run in both tiers.",
         design_ref="6/C13, A.1, A.2",
         note="Trusted: pyvc translator, z3 5.1/cvc5 1.0.3, Python string/int semantics as tabulated in DESIGN 2.1, abstract "
              "whitespace set for lstrip. Not covered: that every emitter places break hints so that Fortran lines fit 132 columns.",
